@@ -19,6 +19,7 @@ import warnings
 from fractions import Fraction
 
 from harness.lib import boot
+from harness.lib.coqrun import RUN_ROOT
 from harness.lib.coqrun import qlit, zlit, blit, listlit, run_mismatch_cases, BUILD
 from harness.lib.coqrun import strlit as _strlit
 
@@ -784,7 +785,7 @@ def run(ctx):
         "recording shims replace holopy.inference.nmpfit.nmpfit / scipyfit.least_squares / make_subset_data inside the check process only"]
     guarded(ctx, "prove", ctx.prove)
     boot.boot()
-    tmpdir = os.path.join(BUILD, "run", "C13files")
+    tmpdir = os.path.join(RUN_ROOT, "C13files")
     os.makedirs(tmpdir, exist_ok=True)
     rec = Rec()
     undo = install_shims(rec)
